@@ -17,8 +17,8 @@ Step(ln) ==
      [] ln.e = "OWait"     -> OWait
      [] ln.e = "OWaitTimed" -> OWaitTimed
      [] ln.e = "WakeTimeout" -> (WakeTimeout(ln.t) \/ Interrupt(ln.t)) /\ last'.d = ln.d
-     [] ln.e = "OStart"    -> OStart /\ last'.initial = (ln.a = 1)
-     [] ln.e = "OStart2"   -> OStart2
+     [] ln.e = "OStart"    -> OStart
+     [] ln.e = "OStartChk" -> OStartChk /\ last'.initial = (ln.a = 1)
      [] ln.e = "OShutdown" -> OShutdown
      [] ln.e = "OShutdownNoWait" -> OShutdownNoWait
      [] ln.e = "OWaitExit" -> OWaitExit
@@ -27,7 +27,7 @@ Step(ln) ==
      [] ln.e = "Deq"       -> Deq(ln.t) /\ last'.d = ln.d /\ last'.ok = (ln.a = 1) /\ last'.left = ln.b
      [] ln.e = "Signal"    -> (Sig(ln.t) \/ (ln.t = "O" /\ OStartSig)) /\ last'.d = ln.d /\ last'.sent = (ln.a = 1)
      [] ln.e = "Drain"     -> Drain(ln.t) /\ last'.d = ln.d
-     [] ln.e = "Wake"      -> (WakeSock(ln.t) \/ WakeWC(ln.t)) /\ last'.d = ln.d
+     [] ln.e = "Wake"      -> (WakeSock(ln.t) \/ WakeWC(ln.t) \/ EvWake(ln.t)) /\ last'.d = ln.d
      [] ln.e = "Entry"     -> Entry /\ last'.has = (ln.a = 1)
      [] ln.e = "Close"     -> Close
      [] OTHER -> FALSE
@@ -38,7 +38,7 @@ TReset == /\ l <= N /\ TraceLog[l].e = "Reset"
           /\ lt["O"].pc = "idle" /\ lt["S"].pc = "idle" /\ ~running
           /\ q' = [d \in Dirs |-> <<>>] /\ sig' = [d \in Dirs |-> 0] /\ alloc' = ~Sockets /\ eof' = FALSE /\ running' = FALSE /\ ended' = FALSE
           /\ lt' = [t \in Thr |-> IF t = "I" THEN [L0 EXCEPT !.pc = "off"] ELSE L0]
-          /\ round' = 0 /\ nsent' = 0 /\ xsent' = 0 /\ npolls' = 0 /\ tloop' = (TraceLog[l].tl = 1) /\ nintr' = 0
+          /\ round' = 0 /\ nsent' = 0 /\ xsent' = 0 /\ npolls' = 0 /\ tloop' = (CASE TraceLog[l].tl = 1 -> "timed" [] TraceLog[l].tl = 3 -> "event" [] OTHER -> "default") /\ nintr' = 0
           /\ sentH' = [d \in Dirs |-> <<>>] /\ recvH' = [d \in Dirs |-> <<>>] /\ handled' = <<>> /\ last' = [a |-> "Init"]
           /\ l' = l + 1
 TraceNext == Evented \/ TReset
